@@ -250,6 +250,47 @@ pub fn so2_lattice(prop: &'static str, seed: u64, index: u64, kinds: &[PlannerKi
     scn
 }
 
+/// SE(2) lattice: positions on a 4 x 4 grid, headings multiples of pi/2, nothing steered (the step
+/// and the radii exceed the space), a forbidden heading band: RRT* trees with many rewirings
+/// between nodes whose headings are exactly half a turn apart.
+pub fn se2_lattice(prop: &'static str, seed: u64, index: u64, kinds: &[PlannerKind]) -> Scenario {
+    use std::f64::consts::PI;
+    let mut rng2 = Xo::new(mix(seed, "se2-lattice", index));
+    let kind = *rng2.pick(kinds);
+    let o2 = GenOpts { planner: Some(kind), families: vec!["open"], space_kinds: vec!["SE2"], max_iters: 4, min_frac: 0.05, goal_sampler: Some(GoalSampler::Fixed), canonical_only: true, library_metric: true, ..Default::default() };
+    let mut scn = gen::base(&mut rng2, prop, seed, index, &o2);
+    scn.space = SpaceSpec::SE2 { weight: *rng2.pick(&[0.5, 1.0]), bounds: vec![(0.0, 4.0), (0.0, 4.0), (-PI, PI)], frac_t: 0.05, frac_r: 0.05, native: true };
+    let pt = |rng: &mut Xo| -> St { vec![0.5 + rng.below(4) as f64, 0.5 + rng.below(4) as f64, (rng.below(4) as f64 - 2.0) * PI / 2.0] };
+    let s = pt(&mut rng2);
+    let mut t = pt(&mut rng2);
+    if t == s {
+        t[0] = if s[0] < 2.0 { s[0] + 2.0 } else { s[0] - 2.0 };
+    }
+    scn.problems[0].starts = vec![s];
+    scn.problems[0].goal.target = t;
+    scn.problems[0].goal.radius = 0.05;
+    scn.problems[0].goal.comp = None;
+    scn.problems[0].space = None;
+    // forbidden heading band between two lattice headings (a cylinder over the heading component)
+    let c = (rng2.below(4) as f64 - 2.0) * PI / 2.0 + PI / 4.0;
+    scn.worlds[0].obstacles = vec![Obstacle::CompBall { comp: 1, c: vec![c], r: 0.3 }];
+    scn.planner.max_distance = 20.0;
+    scn.planner.search_radius = 20.0;
+    scn.planner.connection_radius = 20.0;
+    scn.planner.goal_bias = 0.0;
+    scn.params.insert("ext".into(), 6.0);
+    let n = rng2.usize_in(6, 16);
+    scn.sampling.script = (0..n).map(|_| pt(&mut rng2)).collect();
+    scn.clock = ClockSpec { tick_ns: 1000, cost_valid: vec![], cost_sample: vec![], cost_goal: vec![] };
+    scn.calls = if kind == PlannerKind::PRM {
+        vec![CallSpec::Setup { problem: 0 }, gen::construct_call(n as u64), CallSpec::Solve { timeout_ns: 1_000_000_000_000, stalls: vec![] }]
+    } else {
+        vec![CallSpec::Setup { problem: 0 }, solve_budget(n as u64)]
+    };
+    scn.family = "se2_lattice".into();
+    scn
+}
+
 /// Harvest history: the goal region is the whole space, so every solve returns the branch of the
 /// node it has just added; a long history of solves on the kept tree puts (nearly) every tree
 /// edge — extension, choose-parent and REWIRED edges with descendants — on some returned path.
